@@ -24,7 +24,7 @@ pub const C18: Check = Check {
     assumptions: &["withdrawn ASPAs are identified by customer only; providerAsns of a withdrawn ASPA is not judged"],
     shards: |_| 16,
     watchdog: |t| Duration::from_secs(t.pick(300, 3600)),
-    budget: |t| Duration::from_secs(t.pick(35, 600)),
+    budget: |t| Duration::from_secs(t.pick(35, 300)),
     run: run_c18,
     crash_is_violation: false,
     finish: None,
